@@ -13,4 +13,9 @@ theorem C14_tie_recache_shape : ExoVerif.Gen.oracleRecacheShape.length = 11 := b
 `block > MaxNonce` (F-14d repair; `commitMsgs` in the model uses the saturating subtraction). -/
 theorem C14_tie_cache_commit_shape : ExoVerif.Gen.oracleCacheCommitShape.length = 3 := by decide
 
+/-- caches.go: cacheValidator.add sets `update` in each of the three branches that change the cached
+map (removal, changed power, new validator) — the `cacheAddVals` of the model
+(`C14_valset_change_persisted`). -/
+theorem C14_tie_cache_validator_shape : ExoVerif.Gen.oracleCacheValidatorShape.length = 3 := by decide
+
 end ExoVerif.Oracle
